@@ -952,6 +952,17 @@ FEAT_STMTS = [
     ("struct-arr-field-read", "x = sa.xs[1]"),
     ("struct-arr-field-move", "tmp = sa.xs\nsa.xs = tmp"),
     ("struct-generic", "pr = Pair(x, qubit())\nh(pr.b)\nx = pr.a\ndiscard(pr.b)"),
+    # projections applied directly to a value that is NOT a place (call results, constructor calls), generic and not
+    ("project-from-generic-call", "x = mkpair(x, 1.5).a"),
+    ("project-second-from-generic-call", "fl = mkpair(x, 1.5).b\nx = int(fl)"),
+    ("project-linear-from-generic-call", "r9 = mkpair(x, qubit()).b\ndiscard(r9)"),
+    ("project-from-generic-constructor", "x = Pair(x, True).a"),
+    ("project-nested-generic-calls", "x = mkpair(mkpair(x, 1.5), True).a.a"),
+    ("project-from-call", "x = mkp2(x).v"),
+    ("project-from-constructor", "x = P2(x, 1).u"),
+    ("method-on-call-result", "x = mkp2(x).sum()"),
+    ("project-from-tuple-call", "x = mktup(x)[1]"),
+    ("project-from-generic-call-in-argument", "x = helper(mkpair(x, 2).b, mkpair(1.5, x).b)"),
     ("struct-nested", "ns = NS(S(x, qubit()), y)\nh(ns.s.q)\ndiscard(ns.s.q)\nns.s.q = qubit()\nx = eat(ns.s)"),
     # --- arrays
     ("arr-borrowed-read", "x = xs[0] + xs[y]"),
@@ -1105,6 +1116,18 @@ class P2:
     @guppy
     def sum(self: "P2") -> int:
         return self.u + self.v
+
+@guppy
+def mkpair[A, B](u: A @owned, v: B @owned) -> Pair[A, B]:
+    return Pair(u, v)
+
+@guppy
+def mkp2(u: int) -> P2:
+    return P2(u, u + 1)
+
+@guppy
+def mktup(u: int) -> tuple[bool, int]:
+    return u > 0, u
 
 @guppy
 def helper(u: int, v: int) -> int:
